@@ -75,6 +75,22 @@ F('symbol__get_parse_table_idx', r'constexpr\s+size16_t\s+get_parse_table_idx\(\
 F('add_situation', r'constexpr\s+bool\s+add_situation\(size16_t state_idx,\s*size32_t sit_idx,\s*bool to_kernel\)', 'bool add_situation(size16_t state_idx, size32_t sit_idx, bool to_kernel)', scope=SA, rules=OBJ)
 
 
+TRANS_RULES = [
+    RangeFor([(r'symbol_situations', 'symbol_situations->current_size', 'symbol_situations->the_data[{i}]', 'size32_t', False),
+              (r'kernel_vec', 'kernel_vec.current_size', 'kernel_vec.the_data[{i}]', 'size32_t', False)], min=2),
+    S(r'(?<![\w.>])symbol_situations\.size\(\)', 'sitvec_size(symbol_situations)', name='R4:size'),
+    S(r'situation_set kernel;', 'struct cbitset kernel = cbitset__default(situation_address_space_size);', name='R16:situation_set{}'),
+    S(r'situation_vector kernel_vec;', 'struct sitvec kernel_vec = sitvec__default();', name='R16:situation_vector{}'),
+    S(r'auto& entry = ([^;]*);', r'struct parse_table_entry* entry = &(\1);', name='R5:entry'), S(r'\bentry\.', 'entry->', min=5),
+    S(r'const auto& sm = ([^;]*);', r'const struct symbol* sm = &(\1);', name='R5:sm'), S(r'\bsm\.(idx|term)\b', r'sm->\1', name='R5:sm.member'),
+    S(r'states\[i\]\.kernel == kernel', 'cbitset_eq(&states__kernel[i], &kernel)', name='R4:cbitset=='),
+    S(r'entry->has_sr_conflict = true;', 'entry->has_sr_conflict = 1;', min=2, name='R15:bool->size8_t'),
+    S(r'(?<![\w.])add_situation\(new_state_idx,', 'vx_add_situation_any(new_state_idx,', name='abstract callee: add_situation (its own contract is for one ghost-decoded item)'),
+]
+F('transitions', r'constexpr\s+void\s+transitions\(size16_t state_idx,\s*size16_t symbol_idx,\s*const situation_vector& symbol_situations\)',
+  'void transitions(size16_t state_idx, size16_t symbol_idx, const struct sitvec* symbol_situations)', scope=SA, rules=TRANS_RULES + OBJ)
+
+
 def key_fragment(rx):
     def frag(body):
         m = re.search(rx, body)
@@ -106,6 +122,8 @@ size16_t state_count;
 struct cbitset closures_analyzed; struct sitvec closures[PH_SAS];
 struct cbitset right_side_slice_empty_analyzed, right_side_slice_empty, right_side_slice_first_analyzed; struct cbitset right_side_slice_first[PH_RSS];
 struct cbitset nterm_empty, nterm_empty_analyzed, nterm_first_analyzed; struct cbitset nterm_first[PH_NTERMS];
+static inline struct cbitset cbitset__default(size_t n) { struct cbitset b = { n, { 0 } }; return b; }
+static inline struct sitvec sitvec__default(void) { struct sitvec v; v.current_size = 0; v.N = max_sit_count_per_state_cap; return v; }
 size_t g_k, g_j, g_y; struct rule_info g_rule; unsigned g_count;
 ''' + open(os.path.join(HERE, '..', 'contracts', 'state_analyzer.pre.h')).read()
 
